@@ -14,11 +14,11 @@ ID = "C07"
 
 META = {
     "rule": "graphs = every well-posed member of F(3, m<=2) built from odometry/landmark edges only (all type multisets, first vertex fixed) + SLAM families (ring, eight, grid / ring, helix; "
-    "n in {3,6,12}, noise-free and noisy, inside the C05 radii); transforms T = finite alphabet (identity, generic, translation 1e3-scale, 180 deg, 179.9 deg about a generic axis, 120 deg Hurwitz, "
+    "n in {3,6,12}, noise-free and noisy, inside the C05 radii); transforms T = finite alphabet (identity, generic, translation 1e3-scale and 1e6-scale, 180 deg, 179.9 deg about a generic axis, 120 deg Hurwitz, "
     "w<0; SE(2): pi/2, pi-1e-3, -2, 3.1; R^n: translations). For every (graph, T) the trajectory x_{k+1} = GN(x_k), k = 0..5, is followed and at EVERY state: edge errors and chi2 of L_T(x_k) "
     "equal those of x_k, and GN(L_T(x_k)) = L_T(GN(x_k)); plus the direct 5-step comparison on the SLAM families. non-trivial = T is not the identity and the step moves a vertex",
     "assumptions": ["finite transform alphabet", "L_T is computed with the reference geometry", "tolerance 1e-9 x (1 + |T| + |x| + |dx|) x max(1, cond/1e3); states whose reduced Hessian has cond > 1e6 end the trajectory (counted)"],
-    "required_classes": ["T:180deg", "T:large_translation", "T:w_negative", "T:near_180", "kind:SE2", "kind:SE3", "kind:R2", "kind:R3", "landmark_offset", "slam_family", "shape_family", "state_depth_5"],
+    "required_classes": ["T:180deg", "T:huge_translation", "T:large_translation", "T:w_negative", "T:near_180", "kind:SE2", "kind:SE3", "kind:R2", "kind:R3", "landmark_offset", "slam_family", "shape_family", "state_depth_5"],
     "bounds": {"quick": "shape family m<=2 (single vertex order), SLAM families n in {3,6}; 7 transforms; depth 5", "thorough": "SLAM families n in {3,6,12} x 3 noise patterns; shape family m<=2 x 2 vertex orders; depth 5"},
 }
 
@@ -35,6 +35,7 @@ def transforms(seed):
         ("near_180", [0.5, -0.5, 0.25] + [ax[0] * math.sin(h), ax[1] * math.sin(h), ax[2] * math.sin(h), math.cos(h)]),
         ("hurwitz120", [1.0, 2.0, 3.0, 0.5, 0.5, 0.5, 0.5]),
         ("w_negative", A.jit(seed, "T2", [-3.2, 0.4, -0.9]) + [-x for x in g1]),
+        ("huge_translation", A.jit(seed, "T6", [1e6, -2e6, 5e5]) + g1),
     ]
     t2 = [
         ("identity", [0.0, 0.0, 0.0]),
@@ -44,6 +45,7 @@ def transforms(seed):
         ("near_180", [0.5, -0.5, math.pi - 1e-3]),
         ("hurwitz120", [1.0, 2.0, -2.0]),
         ("w_negative", A.jit(seed, "T2", [-3.2, 0.4]) + [3.1]),
+        ("huge_translation", A.jit(seed, "T6", [1e6, -2e6]) + [0.8]),
     ]
     return t2, t3
 
